@@ -698,7 +698,8 @@ func stateBeginArrayItemOrEmpty(s *Scanner, c byte) state {
 	if c == ']' {
 		return stateFoundArrayEnd(s)
 	}
-	if s.annotation == annotationNone {
+	if s.annotation == annotationNone && !bytes.IsBlank(c) && !s.isNewLine(c) {
+		// Blanks between the brackets do not make an item.
 		s.context.ArrayHasItem = true
 	}
 	return stateBeginValue(s, c)
